@@ -139,6 +139,14 @@ def do_site(which, src, env_w=None):
             prog = parse("bz = Buzzer(8)\n" + pre + "bz.play_tone(" + src + ")\n")
             node = [n for n in prog.setup_body if type(n).__name__ == "BuzzerPlayTone"][-1]
             v = node.frequency
+        elif which == "model":
+            prog = parse(pre + "us = Ultrasonic(7, 8, model=" + src + ")\n")
+            node = [n for n in prog.setup_body if type(n).__name__ == "UltrasonicDecl"][-1]
+            return ["folded", enc(node.model)]
+        elif which == "pin":
+            prog = parse(pre + "l2 = Led(" + src + ")\n")
+            node = [n for n in prog.setup_body if type(n).__name__ == "LedDecl"][-1]
+            v = node.pin
         elif which == "glyph":
             prog = parse("lcd = LCD(rs=12, en=11, d4=5, d5=4, d6=3, d7=2)\n" + pre + "lcd.glyph(0, " + src + ")\n")
             node = [n for n in prog.setup_body if type(n).__name__ == "LCDGlyph"][-1]
@@ -177,6 +185,8 @@ def walk_ir(nodes, out):
         t = type(n).__name__
         if t == "SerialWrite":
             v = str(n.value)
+            if "##handler" in v:
+                continue                 # the harness's own marker line at the head of every except block
             out.append(["len", int(v)] if v.isdigit() else ["rt", v])
         elif t == "LedFlashPattern":
             # read when parsing is complete, like the emitter does: a node that shares its list with the constant
@@ -190,6 +200,10 @@ def walk_ir(nodes, out):
             walk_ir(n.else_body, out)
         elif t in ("WhileLoop", "ForRangeLoop"):
             walk_ir(n.body, out)
+        elif t == "TryStatement":
+            walk_ir(n.try_body, out)
+            for h in n.handlers:
+                walk_ir(h.body, out)
 
 
 def do_prog(script):
